@@ -123,7 +123,8 @@ class DataProvider:
         """
         data = None
         if name in dataset:
-            data = dataset[name].data.copy()
+            # integer (e.g. photon counts) and single precision data are fitted in double precision
+            data = dataset[name].data.astype(np.float64)
             if dataset[name].dims != (model_dimension, global_dimension):
                 data = data.T
         return data
